@@ -191,7 +191,6 @@ def scan(A, seq, final_nl, ws_arm, opaque, nonl_fine):
         pos.append('sep')
         k += 1
         # signed cleartext up to the signature armor
-        body_bad = False
         while k < n and r[k] != R_GB:
             x = r[k]
             if x == R_VE:
@@ -205,7 +204,6 @@ def scan(A, seq, final_nl, ws_arm, opaque, nonl_fine):
                 framing_ok = False
             else:       # header text, junk, or a dash-escaped armor line: signed, but not a Manifest entry
                 defects.append('body_junk')
-                body_bad = True
             pos.append('body')
             k += 1
         if k >= n:
@@ -256,7 +254,7 @@ def scan(A, seq, final_nl, ws_arm, opaque, nonl_fine):
 def readings(A, seq, final_nl):
     """-> ([Verdict, ...] strict reading first, dontcare_reason | None)."""
     v0 = scan(A, seq, final_nl, False, False, False)
-    if not v0.touched and True:
+    if not v0.touched:
         return [v0], None
     done = {0: v0}
     work = [0]
